@@ -1,6 +1,110 @@
 """C16 - iteration and the region-concealing view enumerate exactly the graph
-(Props!IterOK / ViewOK evaluated by TLC on list(scfg) and every level's concealed view, after every stage)."""
+(Props!IterOK / ViewOK evaluated by TLC on list(scfg) and every level's concealed view, after every stage - and on graphs
+edited after restructuring: one-step edit histories enumerated by TLC (Edit.tla) and replayed on real objects, EditViews.tla)."""
+from __future__ import annotations
+
+import json
+import multiprocessing as mp
+import os
+import re
+from typing import Any, Dict, List
+
+from .. import edits, rb, tlc
 from .stagefam import run_family
+
+ECFG = "INIT Init\nNEXT Next\nINVARIANT Holds\nCHECK_DEADLOCK FALSE\n"
+
+
+def _replay_chunk(task):
+    texts, seeds = task
+    from .. import hooks
+    from ..project import project
+    from ..unproject import unproject
+
+    out = []
+    for txt in texts:
+        st = tlc.parse_state(txt)
+        hist = st["hist"]
+        if not hist or st["bad"]:
+            continue
+        seed = seeds[st["seed"] - 1]
+        scfg = unproject(seed["H"], seed["root"], seed["ng"], seed.get("ord"))
+        exc = ""
+        for op in hist:
+            exc = edits.apply_op(scfg, op)
+            if exc:
+                break
+        if exc:
+            continue            # an aborting edit is C14's business
+        real = project(scfg)
+        out.append({"root": seed["root"], "Hs": st["H"], "H": real["H"], "dup": real["dup"], "hook": hooks.views("edited", scfg, {}),
+                    "_id": {"dom": "E", "seed": seed.get("from"), "hist": hist, "seed_state": {k: seed[k] for k in ("H", "ng", "root", "ord") if k in seed}}})
+    return out
+
+
+def edited(rep, args, d):
+    quick = args.tier == "quick"
+    if args.replay:
+        with open(args.replay) as f:
+            rp = json.load(f)["input"]["id"]
+        if rp.get("dom") != "E":
+            return
+        seeds = [rp["seed_state"]]
+        env = {"MAXDEPTH": str(len(rp["hist"])), "MAXP": "2", "MAXS": "1", "OPS": "BCR"}
+    else:
+        seeds = [s for s in edits.make_seeds(args.seed, 14 if quick else 40, max_level=6) if any(r["k"] == "region" for r in s["H"].values())]
+        env = {"MAXDEPTH": "1", "MAXP": "2", "MAXS": "1", "OPS": "BCR"}
+    sp, rk, dump = os.path.join(d, "ev-seeds.json"), os.path.join(d, "ev-rank.json"), os.path.join(d, "ev.dump")
+    with open(sp, "w") as f:
+        json.dump([{k: s[k] for k in ("H", "ng", "root")} for s in seeds], f)
+    with open(rk, "w") as f:
+        json.dump(edits.rank_table(seeds), f)
+    e = dict(env)
+    e.update({"SEEDS": sp, "RANK": rk})
+    r = tlc.run("Edit", "INIT Init\nNEXT Next\nCHECK_DEADLOCK FALSE\n", e, workers=args.jobs, extra=["-dump", dump], heap="6g", timeout=3000, cont=False, tag="edit-views")
+    if r.error:
+        raise tlc.MachineryError("Edit MC (views): %s" % r.error[:2000])
+    with open(dump) as f:
+        states = re.split(r"(?m)^State \d+:\n", f.read())[1:]
+    os.remove(dump)
+    k = args.jobs * 4
+    ctx = mp.get_context("fork")
+    with ctx.Pool(args.jobs) as pool:
+        cases = [c for ch in pool.map(_replay_chunk, [(states[i::k], seeds) for i in range(k)]) for c in ch]
+    if args.replay:
+        cases = [c for c in cases if c["_id"]["hist"] == rp["hist"]]
+    nsh = max(1, min(args.jobs, len(cases)))
+    envs = []
+    for i in range(nsh):
+        p = os.path.join(d, "ev-%02d.json" % i)
+        with open(p, "w") as f:
+            json.dump([{x: c[x] for x in ("root", "Hs", "H", "dup", "hook")} for c in cases[i::nsh]], f, separators=(",", ":"))
+        envs.append({"CASES": p})
+    results = tlc.run_shards("EditViews", ECFG + "INVARIANT Applicable\n", envs, jobs=args.jobs, workers=1, timeout=3000, heap="3g")
+    tlc.require_ok(results, "EditViews")
+    napp = 0
+    for i, tr in enumerate(results):
+        if tr.distinct != len(cases[i::nsh]):
+            raise tlc.MachineryError("EditViews evaluated %d of %d cases" % (tr.distinct, len(cases[i::nsh])))
+        na = 0
+        for v in tr.violations:
+            st = tlc.parse_state(v["states"][0])
+            if v["inv"] == "Applicable":
+                na += 1
+                continue
+            c = cases[i::nsh][st["tid"] - 1]
+            for clause in st["bad"]:
+                if clause.startswith("MACHINERY"):
+                    raise tlc.MachineryError("EditViews: " + clause)
+                rep.violation(clause, {"id": c["_id"], "stage": "edited"}, detail={"failed": sorted(st["bad"])})
+        napp += tr.distinct - na
+    if not args.replay and napp < 50:
+        raise tlc.MachineryError("vacuous run: only %d edited graphs on which the view contract applies" % napp)
+    rep.coverage["edited_graphs"] = {"module": "Edit.tla (enumeration) + EditViews.tla (contract)", "seed_states": len(seeds), "histories_enumerated_by_tlc": r.distinct,
+                                     "replayed_on_real_objects": len(cases), "contract_applies": napp,
+                                     "what": "insert_block / insert_block_and_control_blocks / join_returns with every level, ordered P (<=2), S (<=1) applied to "
+                                             "restructured seed graphs; views and iteration recorded from the real result"}
+    rep.coverage["states"] = rep.coverage.get("states", 0) + r.distinct + sum(t.distinct for t in results)
 
 
 def main(argv):
@@ -8,6 +112,7 @@ def main(argv):
         "C16", "C16", argv, "XRBSN",
         nontrivial=lambda s: s["nblocks"] > s["n"] + 1,
         rule="after every stage of every behaviour: list(scfg) and list(concealed_region_view) of the root and of every sub-region at every depth, "
-             "checked by TLC against the contract (permutation, head first, each item after a predecessor); non-trivial = the hierarchy has at least one region",
-        level_text="", hook="harness.hooks:views",
+             "checked by TLC against the contract (permutation, head first, each item after a predecessor); non-trivial = the hierarchy has at least one region; "
+             "in addition the same on graphs edited after restructuring (coverage.edited_graphs)",
+        level_text="", hook="harness.hooks:views", extra=edited,
     )
